@@ -620,3 +620,165 @@ def check_writecap(tier):
         "property statement forbids by name (forged Write, field! through a dereference, unlock without Write, Cell/RefCell holding pointers) "
         "are violations by themselves"], time.time() - t0, len(viols))
     return 1 if viols else 0
+
+
+# ============================================================================= Brand (C12)
+BR_HEAD = """#![allow(unused)]
+use gc_arena::{Arena, Collect, DynamicRoot, DynamicRootSet, Finalization, Gc, GcWeak, Mutation, RefLock, Rootable, Static,
+               barrier::Write, lock::Lock, zst_cache::ZstCache};
+#[derive(Collect)]
+#[collect(no_drop)]
+pub struct R<'gc> { pub p: Gc<'gc, i32>, pub slot: Gc<'gc, Lock<Option<Gc<'gc, i32>>>>, pub set: DynamicRootSet<'gc> }
+pub type A = Arena<Rootable![R<'_>]>;
+pub fn new_arena() -> A { A::new(|mc| R { p: Gc::new(mc, 1), slot: Gc::new(mc, Lock::new(None)), set: DynamicRootSet::new(mc) }) }
+pub fn is_send<T: Send>() {}
+pub fn is_sync<T: Sync>() {}
+"""
+BRANDED = {  # name: (type with lifetime 'x, as function of the lifetime name)
+    "Gc": "Gc<{l}, i32>", "GcWeak": "GcWeak<{l}, i32>", "GcRefLock": "Gc<{l}, RefLock<i32>>", "MutationRef": "&'r Mutation<{l}>",
+    "FinalizationRef": "&'r Finalization<{l}>", "DynamicRootSet": "DynamicRootSet<{l}>", "GcBuilder": "gc_arena::GcBuilder<{l}, i32>",
+    "ZstCache": "ZstCache<{l}, 8>", "Root": "R<{l}>", "GcSlice": "gc_arena::GcSlice<{l}, u8>", "GcThinStr": "gc_arena::GcThinStr<{l}>",
+}
+AUTO = {"Gc": "Gc<'static, i32>", "GcWeak": "GcWeak<'static, i32>", "Mutation": "Mutation<'static>", "Finalization": "Finalization<'static>",
+        "DynamicRootSet": "DynamicRootSet<'static>", "Arena": "A", "WriteOfGc": "Write<Gc<'static, i32>>", "GcRef": "&'static Gc<'static, i32>",
+        "Metrics": "gc_arena::metrics::Metrics", "MarkedArena": "gc_arena::arena::MarkedArena<'static, Rootable![R<'_>]>"}
+
+ESCAPES = {
+    # every one of these must be REJECTED
+    "return_gc_from_mutate": "pub fn f(a: &A) { let _g = a.mutate(|mc, root| root.p); }",
+    "return_new_gc_from_mutate": "pub fn f(a: &A) { let _g = a.mutate(|mc, _| Gc::new(mc, 5)); }",
+    "return_weak_from_mutate": "pub fn f(a: &A) { let _g = a.mutate(|mc, root| Gc::downgrade(root.p)); }",
+    "return_ref_from_mutate": "pub fn f(a: &A) { let _r: &i32 = a.mutate(|mc, root| Gc::as_ref(root.p)); }",
+    "return_mutation_from_mutate": "pub fn f(a: &A) { let _m = a.mutate(|mc, _| mc); }",
+    "return_root_ref_from_mutate": "pub fn f(a: &A) { let _m = a.mutate(|_, root| root); }",
+    "return_set_from_mutate": "pub fn f(a: &A) { let _s = a.mutate(|_, root| root.set); }",
+    "return_write_from_mutate": "pub fn f(a: &A) { let _w = a.mutate(|mc, root| Gc::write(mc, root.slot)); }",
+    "capture_assign_gc": "pub fn f(a: &A) { let mut out = None; a.mutate(|mc, root| { out = Some(root.p); }); }",
+    "capture_refcell_gc": "pub fn f(a: &A) { let out = std::cell::RefCell::new(None); a.mutate(|mc, root| { *out.borrow_mut() = Some(root.p); }); }",
+    "capture_vec_push": "pub fn f(a: &A) { let mut v = Vec::new(); a.mutate(|mc, root| { v.push(Gc::new(mc, 1)); }); }",
+    "thread_local_store": "thread_local! { static S: std::cell::RefCell<Option<Gc<'static, i32>>> = const { std::cell::RefCell::new(None) }; }\npub fn f(a: &A) { a.mutate(|mc, root| { S.with(|s| *s.borrow_mut() = Some(root.p)); }); }",
+    "thread_spawn": "pub fn f(a: &A) { a.mutate(|mc, root| { let g = root.p; std::thread::spawn(move || { let _x = *g; }); }); }",
+    "thread_scope": "pub fn f(a: &A) { a.mutate(|mc, root| { let g = root.p; std::thread::scope(|s| { s.spawn(|| { let _x = *g; }); }); }); }",
+    "cross_arena_store": "pub fn f(a: &A, b: &A) { a.mutate(|mc1, r1| { b.mutate(|mc2, r2| { r2.slot.set(mc2, Some(r1.p)); }); }); }",
+    "cross_arena_alloc": "pub fn f(a: &A, b: &A) { a.mutate(|mc1, r1| { b.mutate(|mc2, r2| { r1.slot.set(mc1, Some(Gc::new(mc2, 3))); }); }); }",
+    "cross_arena_mutation_context": "pub fn f(a: &A, b: &A) { a.mutate(|mc1, r1| { b.mutate(|mc2, r2| { r2.slot.set(mc1, None); }); }); }",
+    "cross_arena_stash": "pub fn f(a: &A, b: &A) { a.mutate(|mc1, r1| { b.mutate(|mc2, r2| { let _h = r2.set.stash::<Static<i32>>(mc2, unsafe_free(r1.p)); }); }); }\nfn unsafe_free<'gc>(g: Gc<'gc, i32>) -> Gc<'gc, Static<i32>> { todo!() }",
+    "new_arena_with_foreign_pointer": "pub fn f(a: &A) { a.mutate(|mc, root| { let _b = A::new(|mc2| R { p: root.p, slot: Gc::new(mc2, Lock::new(None)), set: DynamicRootSet::new(mc2) }); }); }",
+    "map_root_with_foreign_pointer": "pub fn f(a: &A, b: A) { a.mutate(|mc, root| { let _b2 = b.map_root::<Rootable![R<'_>]>(|mc2, mut r| { r.p = root.p; r }); }); }",
+    "finalize_returns_gc": "pub fn f(a: &mut A) { if let Some(m) = a.finish_marking() { let _g = m.finalize(|fc, root| root.p); } }",
+    "finalize_returns_fc": "pub fn f(a: &mut A) { if let Some(m) = a.finish_marking() { let _g = m.finalize(|fc, root| fc); } }",
+    "rootless_returns_gc": "pub fn f() { let _g = gc_arena::arena::rootless_mutate(|mc| Gc::new(mc, 1)); }",
+    "try_new_err_with_gc": "pub fn f() { let _r = A::try_new(|mc| Err::<R<'_>, _>(Gc::new(mc, 1))); }",
+    "try_map_root_err_with_gc": "pub fn f(a: A) { let _r = a.try_map_root::<Rootable![R<'_>], _>(|mc, r| Err::<R<'_>, _>(r.p)); }",
+    "mutate_root_returns_root": "pub fn f(a: &mut A) { let _r = a.mutate_root(|mc, root| root); }",
+    "root_with_ref_field": "#[derive(Collect)]\n#[collect(no_drop)]\npub struct R2<'gc> { pub r: &'gc i32, pub p: Gc<'gc, i32> }\npub fn f() { let mut a = Arena::<Rootable![R2<'_>]>::new(|mc| { let p = Gc::new(mc, 1); R2 { r: Gc::as_ref(p), p } }); a.finish_cycle(); }",
+    "root_with_static_wrapped_gc": "pub fn f() { let mut a = Arena::<Rootable![Static<Gc<'_, i32>>]>::new(|mc| Static(Gc::new(mc, 1))); a.finish_cycle(); }",
+    "root_with_leaked_static_ref": "pub fn f() { let mut a = Arena::<Rootable![&'static Gc<'_, i32>]>::new(|mc| Box::leak(Box::new(Gc::new(mc, 4)))); a.finish_cycle(); }",
+    "dynamic_root_fetch_unbranded": "pub fn f(a: &A, h: &DynamicRoot<Static<i32>>) { let _g = a.mutate(|mc, root| root.set.fetch(h)); }",
+    "store_gc_in_static_via_from_ptr_safe": "pub fn f(p: *const i32) { let _g: Gc<'static, i32> = Gc::from_ptr(p); }",
+}
+ESCAPE_TWINS = {
+    # the same shapes with legitimate content must be ACCEPTED
+    "return_plain_data": "pub fn f(a: &A) -> i32 { a.mutate(|mc, root| *root.p) }",
+    "store_in_root": "pub fn f(a: &mut A) { a.mutate_root(|mc, root| { root.p = Gc::new(mc, 7); }); }",
+    "store_in_object": "pub fn f(a: &A) { a.mutate(|mc, root| { root.slot.set(mc, Some(Gc::new(mc, 9))); }); }",
+    "stash_and_return_handle": "pub fn f(a: &A) -> DynamicRoot<Static<i32>> { a.mutate(|mc, root| root.set.stash::<Static<i32>>(mc, Gc::new(mc, Static(3)))) }",
+    "fetch_in_later_callback": "pub fn f(a: &A, h: &DynamicRoot<Static<i32>>) -> i32 { a.mutate(|mc, root| root.set.fetch(h).0) }",
+    "two_arenas_side_by_side": "pub fn f(a: &A, b: &A) -> i32 { a.mutate(|mc1, r1| b.mutate(|mc2, r2| { r2.slot.set(mc2, Some(r2.p)); r1.slot.set(mc1, Some(r1.p)); *r1.p + *r2.p })) }",
+    "finalize_returns_data": "pub fn f(a: &mut A) -> Option<bool> { a.finish_marking().map(|m| m.finalize(|fc, root| Gc::is_dead(fc, root.p))) }",
+    "uncollectable_root_without_collection": "pub fn f() -> i32 { let a = Arena::<Rootable![Static<Gc<'_, i32>>]>::new(|mc| Static(Gc::new(mc, 1))); a.mutate(|_, r| *r.0) }",
+    "map_root_same_arena": "pub fn f(a: A) -> A { a.map_root::<Rootable![R<'_>]>(|mc, mut r| { r.p = Gc::new(mc, 2); r }) }",
+}
+
+
+def check_brand(tier):
+    prop = "C12"
+    t0 = time.time()
+    d = os.path.join(WORK, "sat-C12")
+    os.makedirs(d, exist_ok=True)
+    build_sat()
+    pdir = os.path.join(d, "probes")
+    viols, results = [], {}
+
+    def probe(name, body, expect_ok):
+        ok, diag = probe_compile(BR_HEAD + body + "\n", name, pdir)
+        results[name] = {"accepted": ok, "expected_accepted": expect_ok}
+        return ok, diag
+
+    # (1) variance: both directions must be rejected for every branded type; the twin (&'a i32) is covariant
+    co_any, contra_any = False, False
+    for name, ty in BRANDED.items():
+        lt = "<'a: 'b, 'b, 'r>" if "'r" in ty else "<'a: 'b, 'b>"
+        ok, _ = probe("co_" + name, f"pub fn co{lt}(x: {ty.format(l=chr(39) + 'a')}) -> {ty.format(l=chr(39) + 'b')} {{ x }}", False)
+        if ok:
+            co_any = True
+            viols.append({"rule": "covariant:" + name, "what": f"{name} is covariant in the brand lifetime", "program": os.path.join(pdir, 'co_' + name + '.rs')})
+        ok, _ = probe("contra_" + name, f"pub fn contra{lt}(x: {ty.format(l=chr(39) + 'b')}) -> {ty.format(l=chr(39) + 'a')} {{ x }}", False)
+        if ok:
+            contra_any = True
+            viols.append({"rule": "contravariant:" + name, "what": f"{name} is contravariant in the brand lifetime", "program": os.path.join(pdir, 'contra_' + name + '.rs')})
+    ok, diag = probe("co_twin_plain_ref", "pub fn co<'a: 'b, 'b>(x: &'a i32) -> &'b i32 { x }", True)
+    if not ok:
+        raise ToolError("the covariance twin is rejected: the variance probes are broken: " + diag)
+    # (2) auto traits
+    send_any = False
+    for name, ty in AUTO.items():
+        for tr in ("send", "sync"):
+            ok, _ = probe(f"{tr}_{name}", f"pub fn f() {{ is_{tr}::<{ty}>() }}", False)
+            if ok:
+                send_any = True
+                viols.append({"rule": f"{tr}:{name}", "what": f"{name} is {tr.capitalize()}", "program": os.path.join(pdir, f'{tr}_{name}.rs')})
+    ok, diag = probe("send_twin", "pub fn f() { is_send::<i32>(); is_sync::<i32>() }", True)
+    if not ok:
+        raise ToolError("the auto-trait twin is rejected: " + diag)
+    # (3) the adversarial corpus: one escape attempt per entry point x target place
+    escaped = []
+    for name, body in ESCAPES.items():
+        ok, _ = probe("esc_" + name, body, False)
+        if ok:
+            escaped.append(name)
+            viols.append({"rule": "escape:" + name, "what": "an escape attempt compiles", "program": os.path.join(pdir, 'esc_' + name + '.rs')})
+    for name, body in ESCAPE_TWINS.items():
+        ok, diag = probe("twin_" + name, body, True)
+        if not ok:
+            raise ToolError(f"the legitimate twin {name} is rejected: the corpus no longer matches the API: {diag[-400:]}")
+    # (4) the model over the measured facts
+    capture = [n for n in escaped if n.startswith("capture") or n.startswith("thread")]
+    returns = [n for n in escaped if "return" in n or "err_with" in n]
+    refs = [n for n in escaped if n.startswith("root_with")]
+    facts = {"Covariant": co_any, "Contravariant": contra_any, "SendOrSync": send_any, "HigherRanked": not capture,
+             "RetNamesBrand": bool(returns), "RefCollect": bool(refs), "FetchUnchecked": "dynamic_root_fetch_unbranded" in escaped and False}
+    consts = {k: ("TRUE" if v else "FALSE") for k, v in facts.items()}
+    r = run_tlc("Brand", gcv.cfg_text(spec="Spec", constants=consts, invariants=["NoEscape"], constraints=["Bounded"]), "brand", d,
+                workers=2, timeout=300, xmx="2g")
+    txt = open(r["out"], errors="replace").read()
+    rec = re.findall(r'recipe = (<<.*?>>)\n', txt, re.S)
+    recipe = re.sub(r"\s+", " ", rec[-1]) if (r["error"] and rec) else None
+    if r["error"] and "violated" not in r["error"]:
+        raise ToolError(f"TLC run Brand failed: {r['error']} (see {r['out']})")
+    if recipe and not viols:
+        raise ToolError(f"Brand.tla finds an escape recipe for facts that no probe flags: {recipe}")
+    os.makedirs(os.path.join(WORK, "replays"), exist_ok=True)
+    for x in viols[:6]:
+        path = os.path.join(WORK, "replays", f"C12_brand_{x['rule'].replace(':', '-')}.json")
+        json.dump({"property": prop, "engine": "brand", "rule": "C12." + x["rule"], "detail": x, "escape_recipe_from_model": recipe}, open(path, "w"), indent=1)
+        print(f"VIOLATION property={prop} replay={path}")
+    cov = {
+        "evaluations": len(results), "distinct_nontrivial": len(results),
+        "rule": "one compile probe per (branded type x variance direction), per (type x Send/Sync), and per escape attempt (entry point x target "
+                "place: callback result, captured local, static, thread, other arena's frame / root, root field the collector cannot see), each "
+                "family with accepted twins; probes are distinct programs; TLC checks NoEscape over all move sequences (<= 4) for the measured facts",
+        "samples": [{"probe": k, **v} for k, v in list(results.items())[::17]],
+        "states": r["distinct"], "transitions": r["generated"], "facts_measured": facts, "escape_recipe_from_model": recipe,
+        "probes_rejected_as_expected": sum(1 for v in results.values() if not v["accepted"] and not v["expected_accepted"]),
+        "probes_accepted_as_expected": sum(1 for v in results.values() if v["accepted"] and v["expected_accepted"]),
+        "traces_validated_against_impl": len(results),
+        "checker_cmd": "rustc probes ; tlc Brand.tla (constants = measured facts)",
+    }
+    write_evidence(prop, tier, "exploration", cov, [
+        "Brand.tla models the API's intended discipline, not rustc; it decides 'given these facts no chain of <= 4 API moves escapes'; the universal "
+        "claim over all safe programs rests on variance and auto-trait probes settling the question structurally and on the corpus being representative",
+        "rustc is the judge of every probe; a probe that is accepted where rejection is expected is a violation, a rejected twin is a tool error",
+        "presenting a handle to another arena's set compiles by design and is rejected at run time: that clause is decided under C14"],
+        time.time() - t0, len(viols))
+    return 1 if viols else 0
